@@ -31,7 +31,7 @@ LEVEL_NOTE = ("per-stream order preserved; backlog of every stream kept below th
 RULE = ("seeded schedules: list of (stream, burst, yields) steps over N=15..60 indices; kinds flat / composed / 3phase. "
         "distinct = canonical schedule JSON; non-trivial = >=2 streams and >=10 outputs decoded")
 B = 1000
-REQUIRED_BUCKETS = ["3phase-phases-begin-at-different-timestamps", "kind:flat", "kind:composed", "kind:3phase", "kind:fallback-term", "different-first-timestamps", "reader-late",
+REQUIRED_BUCKETS = ["stream-begins-more-than-50-samples-after-another", "3phase-phases-begin-at-different-timestamps", "kind:flat", "kind:composed", "kind:3phase", "kind:fallback-term", "different-first-timestamps", "reader-late",
                     "reader-before-data", "burst>=20", "second-reader", "lagging-stream>=20",
                     "stream-seconds-behind-the-others", "streams-stamped-in-different-time-zones", "sub-second-input-step",
                     "streams-begin-whole-days-apart"]
@@ -86,12 +86,18 @@ def gen(rng: Any, tier: str, i: int) -> Any:
         N = max(N, 40)
         far = int(86400 / step)
         first = [rng.choice([0, far, far, rng.randint(0, 5)]) for _ in range(n)]
+    rx_limit = 50
+    if kind == "flat" and n >= 2 and step == 1.0 and rng.random() < 0.15:
+        # input receivers with a larger capacity: a stream may begin far more than 50 samples after the others
+        rx_limit = 200
+        first = [rng.choice([0, 0, rng.randint(51, 120), rng.randint(0, 5)]) for _ in range(n)]
+        N = max(N, max(first) + 20)
     steps = []
     for _ in range(rng.randint(40, 400)):
         # (stream, burst, loop yields, seconds of virtual time that pass before the next delivery)
         steps.append([rng.randrange(n), rng.choice([1, 1, 1, 5, 20, 35]), rng.choice([0, 0, 1, 5]),
                       rng.choice([0.0] * 12 + [0.5, 6.0, 40.0])])
-    return {"step": step, "tzmix": rng.random() < 0.25, "kind": kind, "n": n, "groups": groups, "first": first, "N": N, "steps": steps,
+    return {"rx_limit": rx_limit, "step": step, "tzmix": rng.random() < 0.25, "kind": kind, "n": n, "groups": groups, "first": first, "N": N, "steps": steps,
             "reader_at": rng.choice([0, 0, 3, 10, 50]), "second_reader_at": rng.choice([None, 20, 60, 150])}
 
 
@@ -105,7 +111,9 @@ async def _drive(case: dict[str, Any], out: dict[str, Any]) -> None:
 
     n, N = case["n"], case["N"]
     chans = [Broadcast(name=f"c{i}") for i in range(n)]
-    in_rx = [c.new_receiver(limit=50) for c in chans]
+    cap = case.get("rx_limit", 50)
+    lead_cap = cap - 5 if case["kind"] == "flat" else 45
+    in_rx = [c.new_receiver(limit=cap) for c in chans]
 
     def engine_over(ids: list[int], name: str) -> Any:
         b = FormulaBuilder(name, Quantity)
@@ -144,7 +152,7 @@ async def _drive(case: dict[str, Any], out: dict[str, Any]) -> None:
         # not yet started outer engine: attach the reader before that internal backlog can overflow
         internal_full = case["kind"] != "flat" and any(nxt[j] - case["first"][j] >= 40 for j in range(n))
         if rx is None and (step_no >= case["reader_at"] or internal_full
-                           or any(len(r._q) >= 40 for r in in_rx)):  # noqa: SLF001
+                           or any(len(r._q) >= cap - 10 for r in in_rx)):  # noqa: SLF001
             rx = eng.new_receiver(max_size=2000)
             out["reader_attached_after_sends"] = sum(nxt) - sum(case["first"])
         if rx2 is None and case["second_reader_at"] is not None and step_no >= case["second_reader_at"] and rx is not None:
@@ -153,7 +161,7 @@ async def _drive(case: dict[str, Any], out: dict[str, Any]) -> None:
         for _ in range(burst):
             # capacity: never let a stream's unconsumed backlog reach the receiver limit
             # (for engines of engines the internal receivers see the lead of one stream over the slowest)
-            if nxt[i] >= N or len(in_rx[i]._q) >= 45 or nxt[i] - min(nxt) >= 45:  # noqa: SLF001
+            if nxt[i] >= N or len(in_rx[i]._q) >= cap - 5 or nxt[i] - min(nxt) >= lead_cap:  # noqa: SLF001
                 break
             if rx is None and case["kind"] != "flat" and nxt[i] - case["first"][i] >= 44:
                 break  # (the not yet started outer engine's internal receivers hold 50 samples)
@@ -178,7 +186,7 @@ async def _drive(case: dict[str, Any], out: dict[str, Any]) -> None:
         await asyncio.sleep(0.01)
         # top up streams that were blocked by the capacity rule
         for i in range(n):
-            while nxt[i] < N and len(in_rx[i]._q) < 45:  # noqa: SLF001
+            while nxt[i] < N and len(in_rx[i]._q) < cap - 5:  # noqa: SLF001
                 k = nxt[i]
                 await senders[i].send(Sample(_stamp(i, k), Quantity(float((k + 1) * B ** i))))
                 nxt[i] += 1
@@ -219,6 +227,8 @@ def check(case: dict[str, Any], rec: Any) -> None:
         rec.bucket("sub-second-input-step")
     if case.get("step", 1.0) >= 3600.0 and max(first) - min(first) >= 4:
         rec.bucket("streams-begin-whole-days-apart")
+    if case.get("rx_limit", 50) > 50 and max(first) - min(first) > 50:
+        rec.bucket("stream-begins-more-than-50-samples-after-another")
     if case.get("tzmix") and n > 1:
         rec.bucket("streams-stamped-in-different-time-zones")
     out: dict[str, Any] = {}
